@@ -45,9 +45,11 @@ ImplMixedIndependent ==
   (Once /\ ev.kind = "pair" /\ ~Exclusive(EvCase)) =>
      \A r1, r2 \in Runs : Eff(r1.res) = Eff(r2.res)
 
-(* documented tags have their documented effect (file route; merged flow) *)
+(* tags have the effect the table records for them (file route; merged flow); *)
+(* TblDoc marks the rows that have a section in doc/setting-tags.md, the      *)
+(* others are specified by the help string of their option                    *)
 ImplTagSemantics ==
-  (Once /\ Keys(EvCase) \subseteq TblDoc /\ ev.kind # "override") =>
+  (Once /\ ev.kind # "override") =>
      \A r \in Runs : (r.O = <<>>) => r.res = Ok(RunMerged(ev.cmd, r.F, <<>>))
 
 (* no tags, no options: the documented defaults of the command *)
